@@ -216,3 +216,181 @@ Corollary skip_item_no_panic bs : skip_item bs <> Panic.
 Proof.
   unfold skip_item. apply bind_no_panic; [apply parse_item_no_panic|]. intros [? ?]. discriminate.
 Qed.
+
+(* ------------------------------------------------------------------ fuel *)
+
+(* q agrees with p wherever p does not run out of fuel *)
+Definition pext {A} (p q : parser A) : Prop := forall bs, p bs <> OutOfFuel -> q bs = p bs.
+
+Lemma bind_ext {A B} (r r' : result A) (f g : A -> result B) :
+  (r <> OutOfFuel -> r' = r) -> (forall a, f a <> OutOfFuel -> g a = f a) ->
+  bind r f <> OutOfFuel -> bind r' g = bind r f.
+Proof.
+  intros H1 H2 H. destruct r; cbn [bind] in *; try congruence;
+    rewrite H1 by discriminate; cbn [bind]; auto.
+Qed.
+
+Lemma parse_n_ext {A} (p q : parser A) : pext p q -> forall k, pext (parse_n p k) (parse_n q k).
+Proof.
+  intros Hpq. induction k as [|k IH]; intros bs H; cbn [parse_n] in *; [reflexivity|].
+  apply bind_ext; [apply Hpq| |exact H]. intros [x r] H'.
+  apply bind_ext; [apply IH| |exact H']. intros [xs r'] _. reflexivity.
+Qed.
+
+Lemma parse_until_break_ext {A} (p q : parser A) : pext p q ->
+  forall k, pext (parse_until_break p k) (parse_until_break q k).
+Proof.
+  intros Hpq. induction k as [|k IH]; intros [|b t] H; cbn [parse_until_break] in *; try reflexivity;
+    destruct (b =? 255); try reflexivity.
+  apply bind_ext; [apply Hpq| |exact H]. intros [x r] H'.
+  apply bind_ext; [apply IH| |exact H']. intros [xs r'] _. reflexivity.
+Qed.
+
+Lemma parse_pair_ext {A} (p q : parser A) : pext p q -> pext (parse_pair p) (parse_pair q).
+Proof.
+  intros Hpq bs H. unfold parse_pair in *.
+  apply bind_ext; [apply Hpq| |exact H]. intros [x r] H'.
+  apply bind_ext; [apply Hpq| |exact H']. intros [xs r'] _. reflexivity.
+Qed.
+
+Lemma parse_body_ext p q : pext p q -> pext (parse_body p) (parse_body q).
+Proof.
+  intros Hpq bs H. unfold parse_body in *. destruct bs as [|b0 t]; [reflexivity|].
+  destruct (decode_head (b0 :: t)) as [[[m a] r0]|]; [|reflexivity].
+  unfold parse_after in *. destruct (major_of m) as [[]|]; destruct a as [n|]; try reflexivity;
+    try (destruct (n <=? len r0); [|reflexivity]);
+    (apply bind_ext; [|intros [? ?] _; reflexivity|exact H]).
+  - apply parse_n_ext, Hpq.
+  - apply parse_until_break_ext, Hpq.
+  - apply parse_n_ext, parse_pair_ext, Hpq.
+  - apply parse_until_break_ext, parse_pair_ext, Hpq.
+  - apply Hpq.
+Qed.
+
+Lemma parse_item_fuel_S f : pext (parse_item f) (parse_item (S f)).
+Proof.
+  induction f as [|f IH]; [intros bs H; exfalso; apply H; reflexivity|].
+  exact (parse_body_ext _ _ IH).
+Qed.
+
+(* more fuel never changes an Ok / Err result *)
+Theorem parse_item_fuel_mono f f' bs : (f <= f')%nat ->
+  parse_item f bs <> OutOfFuel -> parse_item f' bs = parse_item f bs.
+Proof.
+  intros Hle H. induction Hle as [|f' Hle IH]; [reflexivity|].
+  rewrite <- IH. apply parse_item_fuel_S. rewrite IH. exact H.
+Qed.
+
+Corollary parse_item_fuel_ok f f' bs v : (f <= f')%nat -> parse_item f bs = Ok v -> parse_item f' bs = Ok v.
+Proof. intros Hle H. rewrite (parse_item_fuel_mono f f' bs Hle); [exact H|rewrite H; discriminate]. Qed.
+
+Corollary parse_item_fuel_err f f' bs : (f <= f')%nat -> parse_item f bs = Err -> parse_item f' bs = Err.
+Proof. intros Hle H. rewrite (parse_item_fuel_mono f f' bs Hle); [exact H|rewrite H; discriminate]. Qed.
+
+(* two fuels that both suffice give the same answer *)
+Corollary parse_item_fuel_indep f f' bs :
+  parse_item f bs <> OutOfFuel -> parse_item f' bs <> OutOfFuel -> parse_item f' bs = parse_item f bs.
+Proof.
+  intros H H'. destruct (Nat.le_ge_cases f f') as [L|L].
+  - apply parse_item_fuel_mono; assumption.
+  - symmetry. apply parse_item_fuel_mono; assumption.
+Qed.
+
+Lemma bind_no_oof {A B} (r : result A) (f : A -> result B) :
+  r <> OutOfFuel -> (forall a, r = Ok a -> f a <> OutOfFuel) -> bind r f <> OutOfFuel.
+Proof. destruct r; cbn [bind]; intros H1 H2; try congruence; apply H2; reflexivity. Qed.
+
+Lemma take_bytes_no_oof n bs : take_bytes n bs <> OutOfFuel.
+Proof. unfold take_bytes. destruct (n <=? len bs); discriminate. Qed.
+
+Lemma parse_n_no_oof {A} (p : parser A) L : psuffix p ->
+  (forall bs, (length bs <= L)%nat -> p bs <> OutOfFuel) ->
+  forall k bs, (length bs <= L)%nat -> parse_n p k bs <> OutOfFuel.
+Proof.
+  intros Hp Hn. induction k as [|k IH]; intros bs Hl; cbn [parse_n]; [discriminate|].
+  apply bind_no_oof; [apply Hn, Hl|]. intros [x r] E.
+  apply bind_no_oof; [|intros [? ?] _; discriminate].
+  apply IH. apply Hp in E as [pre [-> _]]. rewrite app_length in Hl. lia.
+Qed.
+
+Lemma parse_until_break_no_oof {A} (p : parser A) L : psuffix p ->
+  (forall bs, (length bs <= L)%nat -> p bs <> OutOfFuel) ->
+  forall k bs, (length bs <= L)%nat -> (length bs <= k)%nat -> parse_until_break p k bs <> OutOfFuel.
+Proof.
+  intros Hp Hn. induction k as [|k IH]; intros [|b t] Hl Hk; cbn [parse_until_break]; try discriminate;
+    destruct (b =? 255); try discriminate.
+  { cbn [length] in Hk. lia. }
+  apply bind_no_oof; [apply Hn, Hl|]. intros [x r] E.
+  apply bind_no_oof; [|intros [? ?] _; discriminate].
+  apply Hp in E as [pre [E Hne]].
+  assert (length r < length (b :: t))%nat.
+  { rewrite E, app_length. destruct pre; [congruence|]. cbn [length]. lia. }
+  apply IH; lia.
+Qed.
+
+Lemma parse_pair_no_oof {A} (p : parser A) L : psuffix p ->
+  (forall bs, (length bs <= L)%nat -> p bs <> OutOfFuel) ->
+  forall bs, (length bs <= L)%nat -> parse_pair p bs <> OutOfFuel.
+Proof.
+  intros Hp Hn bs Hl. unfold parse_pair.
+  apply bind_no_oof; [apply Hn, Hl|]. intros [x r] E.
+  apply bind_no_oof; [|intros [? ?] _; discriminate].
+  apply Hn. apply Hp in E as [pre [-> _]]. rewrite app_length in Hl. lia.
+Qed.
+
+Lemma parse_chunk_no_oof m bs : parse_chunk m bs <> OutOfFuel.
+Proof.
+  unfold parse_chunk. destruct (decode_head bs) as [[[m' [n|]] r0]|]; try discriminate.
+  destruct (m' =? m); [apply take_bytes_no_oof|discriminate].
+Qed.
+
+Lemma parse_body_no_oof p bs : psuffix p ->
+  (forall bs', (length bs' < length bs)%nat -> p bs' <> OutOfFuel) -> parse_body p bs <> OutOfFuel.
+Proof.
+  intros Hp Hn. unfold parse_body. destruct bs as [|b0 t]; [discriminate|].
+  destruct (decode_head (b0 :: t)) as [[[m a] r0]|] eqn:Hd; [|discriminate].
+  apply decode_head_shorter in Hd.
+  assert (Hn' : forall bs', (length bs' <= length r0)%nat -> p bs' <> OutOfFuel) by (intros; apply Hn; lia).
+  unfold parse_after. destruct (major_of m) as [[]|]; destruct a as [n|]; try discriminate;
+    try (destruct (n <=? len r0); [|discriminate]);
+    try (apply bind_no_oof; [|intros [? ?] _; discriminate]).
+  - apply take_bytes_no_oof.
+  - apply (parse_until_break_no_oof _ (length r0)); try lia; [apply parse_chunk_suffix|intros; apply parse_chunk_no_oof].
+  - apply take_bytes_no_oof.
+  - apply (parse_until_break_no_oof _ (length r0)); try lia; [apply parse_chunk_suffix|intros; apply parse_chunk_no_oof].
+  - apply (parse_n_no_oof _ (length r0)); try lia; assumption.
+  - apply (parse_until_break_no_oof _ (length r0)); try lia; assumption.
+  - apply (parse_n_no_oof _ (length r0)); try lia; [apply parse_pair_suffix, Hp|].
+    apply parse_pair_no_oof; assumption.
+  - apply (parse_until_break_no_oof _ (length r0)); try lia; [apply parse_pair_suffix, Hp|].
+    apply parse_pair_no_oof; assumption.
+  - apply Hn'. lia.
+  - cbv zeta. destruct (b0 mod 32 <? 24); [discriminate|]. destruct (b0 mod 32 =? 24).
+    { destruct (n <? 32); discriminate. }
+    destruct (b0 mod 32 =? 25); [discriminate|]. destruct (b0 mod 32 =? 26); discriminate.
+Qed.
+
+(* fuel above the input length is always enough: OutOfFuel can only mean "nested deeper than the fuel" *)
+Theorem parse_item_fuel_enough f bs : (length bs < f)%nat -> parse_item f bs <> OutOfFuel.
+Proof.
+  revert bs. induction f as [|f IH]; intros bs Hl; [lia|].
+  apply parse_body_no_oof; [exact (parse_item_suffix f)|]. intros bs' Hl'. apply IH. lia.
+Qed.
+
+Corollary parse_one_no_oof bs : parse_one bs <> OutOfFuel.
+Proof. apply parse_item_fuel_enough. unfold default_fuel. lia. Qed.
+
+Corollary parse_one_total bs : (exists it rest, parse_one bs = Ok (it, rest)) \/ parse_one bs = Err.
+Proof.
+  pose proof (parse_one_no_oof bs). pose proof (parse_item_no_panic (default_fuel bs) bs).
+  unfold parse_one in *. destruct (parse_item (default_fuel bs) bs) as [[it r]| | |]; try congruence; eauto.
+Qed.
+
+Corollary skip_item_total bs : (exists pre rest, skip_item bs = Ok (pre, rest)) \/ skip_item bs = Err.
+Proof.
+  unfold skip_item. destruct (parse_one_total bs) as [[it [r ->]]| ->]; cbn [bind]; eauto.
+Qed.
+
+(* any sufficient fuel gives the answer of the default fuel *)
+Corollary parse_item_default f bs : parse_item f bs <> OutOfFuel -> parse_item f bs = parse_one bs.
+Proof. intros H. symmetry. apply parse_item_fuel_indep; [exact H|apply parse_one_no_oof]. Qed.
